@@ -136,3 +136,7 @@ for _k, _v in ADDED.items():
     CLAIMS[_k]['text'] = CLAIMS[_k]['text'] + ' ' + _v
 CLAIMS['C17']['note'] = 'Narrow: the serialisation sentence plus two structural necessary conditions of the in-memory operations; the ideal-string refinement is not decided.'
 CLAIMS['C01']['text'] = CLAIMS['C01']['text'].replace('Bit-identity of values, field order and checksum/equality invariance are not decided.', 'Bit-identity of values, field order and equality invariance are not decided; of the checksum only the array/inline agreement is.')
+
+ADDED2 = {'C01': ' Round 2: the inline-vs-array comparisons of IsEqualTo use the same item type on both sides.', 'C02': ' Round 2: NUL-SLOT (a read into a local array leaves room for the terminator that is stored afterwards) and BORROW-SCOPE (a reader pointed at a buffer held by a local Ref is not used after that Ref dies).', 'C03': ' Round 2: RESUME-OFFSET (a transfer of the untransferred rest starts at base + the same cursor).', 'C04': ' Round 2: SetFilterForEntry reads the old filter before overwriting it; marks traversals ignore filters; the raw old-filter pointer is not used after the entry can have been replaced; MATCH-RECHECK.', 'C06': ' Round 2: marks traversals ignore filters; ClearLameDucks removes the end it processed; RESET-COMPLETE (DataNode::Reset()/Init() restore every member other methods change; found and fixed the pooled ordered-child counter).', 'C07': ' Round 2: GetAncestorNode() is dereferenced only with a fallback or after a test; the raw old-filter pointer is not used after SetFilterForEntry().', 'C08': ' Round 2: GetFlattenedSizeForFixedSizeType gives the documented width per type; the micro reader accepts a sub-Message of exactly header size.', 'C10': ' Round 2: SetRef references the new item before it releases the old one (found and fixed a use-after-free on cur = cur()->_next); CastAwayConstFromRef forwards the counting flag; the RefCountable copy constructor does not copy the manager.', 'C11': " Round 2: StartInternalThread looks at the internal thread's queue for the initial signal.", 'C12': ' Round 2: message ids are compared for equality only; packets are deflated independently; RESUME-OFFSET in the packet I/O classes.', 'C13': ' Round 2: an index instruction marks the subscription Messages dirty; the index entry is removed on the quiet path too; NodeCreated records the match count.', 'C14': ' Round 2: SetFromArchive drops the cached matcher on every path.', 'C15': ' Round 2: every return of StringMatcher::Match applies the negate flag.', 'C16': ' Round 2: loops over the item count do not index the raw storage; COPY-FITS (EnsureSizeAux reconciles the requested size with the item count before copying; found and fixed a buffer overflow).', 'C17': ' Round 2: a method that reads its argument with memmove does not release its buffer before that read.', 'C18': ' Round 2: a waiter that times out removes its own entry; leaving the executing table is guarded by both recursion counts; the hand-off after leaving is unconditional.', 'C19': ' Round 2: strict thread limit; Shutdown notifies before it clears the waiters; the batch is handled head-first.', 'C20': ' Round 2: ClearPulseChildren empties all lists; GetPulseTimeAux asks the node itself before draining its pending children.'}
+for _k, _v in ADDED2.items():
+    CLAIMS[_k]['text'] = CLAIMS[_k]['text'] + _v
